@@ -152,6 +152,7 @@ func (d *DNS) isImmediate(q dns.Question) bool {
 	query := strings.Split(qname, ".")
 	self := strings.Split(d.domain, ".")
 	return strings.HasSuffix(qname, d.domain) &&
+		(len(qname) == len(d.domain) || strings.HasSuffix(qname, "."+d.domain)) && // on a label boundary
 		len(query) >= len(self) &&
 		len(query)-len(self) <= 1
 }
